@@ -9,10 +9,13 @@ import (
 // This file uses only NewIPFilter and IsAllowed, so that it keeps compiling
 // when the filter's internal representation is refactored.
 
-var verifCatalogueEntries = []string{"10.0.0.0/8", "203.0.113.7", "fe80::/10", "::/0", "0.0.0.0/0", "2001:db8::/32", "::ffff:10.0.0.0/104"}
+var verifCatalogueEntries = []string{"10.0.0.0/8", "203.0.113.7", "fe80::/10", "::/0", "0.0.0.0/0", "2001:db8::/32", "::ffff:10.0.0.0/104",
+	// single addresses in their other spellings: IPv4-mapped, plain IPv6
+	"::ffff:203.0.113.7", "2001:db8::1", "::1"}
 
 // the same entries in CIDR form for the reference computation
-var verifCatalogueCIDR = []string{"10.0.0.0/8", "203.0.113.7/32", "fe80::/10", "::/0", "0.0.0.0/0", "2001:db8::/32", "::ffff:10.0.0.0/104"}
+var verifCatalogueCIDR = []string{"10.0.0.0/8", "203.0.113.7/32", "fe80::/10", "::/0", "0.0.0.0/0", "2001:db8::/32", "::ffff:10.0.0.0/104",
+	"203.0.113.7/32", "2001:db8::1/128", "::1/128"}
 
 type verifPeer struct {
 	text     string // as the peer address reaches IsAllowed
